@@ -129,7 +129,7 @@ func sessOpts(op SessOp) (opts []mcap.ReadOpt, s, e uint64, endOpen bool, order 
 		opts = append(opts, mcap.InOrder(order))
 	}
 	if op.Topics != nil {
-		opts = append(opts, mcap.WithTopics(op.Topics))
+		opts = append(opts, mc.Topics(op.Topics))
 	}
 	endOpen = true
 	if op.Window {
@@ -262,6 +262,7 @@ func checkSession(prop string) func(c SessCase, st *stats.Collector) error {
 				}
 				strict := indexed || op.Kind == "scan"
 				it, err := rd.Messages(opts...)
+				mc.ScribbleTopics() // the caller's topic slice is the caller's again
 				if err != nil {
 					if !strict {
 						st.Note("non-indexable:Messages-error")
